@@ -838,10 +838,14 @@ def well_formed_entrypoints(ty: Ty) -> bool:
 
 
 def param_types(tier='quick', seed=0):
-    """Parameter types: all `or` trees of depth <= union_depth with every subset of annotated nodes
-    (distinct names, so Tezos-well-formed), each with the special names `default` / `root` on every
-    single annotated node (and on every ordered pair of two), type-annotated nodes, non-union roots,
-    unions below pairs (not entrypoints).  Leaves rotate unit int nat string (pair int nat)."""
+    """Parameter types (Tezos-well-formed only): all `or` trees of depth <= union_depth (quick 2, thorough 3).
+    Shapes with <= 7 nodes: every subset of annotated nodes (root included) with distinct names e0,e1,..; on every
+    annotated node the special names `default` / `root`; on every ordered pair of annotated nodes (default, root)
+    (quick: only for subsets of <= 3 annotated nodes on the 7-node shape).  Shapes with > 7 nodes (depth 3): every
+    subset of size <= 2 or >= n-1 plus a VERIF_SEED sample (120 / shape), special names on the first two annotated
+    nodes.  Plus: one type-annotated node (not an entrypoint) per position, non-union roots with and without a root
+    annotation, unions below pair / option / list (not entrypoints), lambda / contract / big_map / ticket leaves.
+    Leaves rotate unit, int, nat, string, pair int nat, option int."""
     b = BOUNDS(tier)
     depth = b['union_depth']
     rot = (T('unit'), T('int'), T('nat'), T('string'), T('pair', T('int'), T('nat')), T('option', T('int')))
